@@ -5,7 +5,83 @@ Q, T = "quick", "thorough"
 HOOK_COMMITS = ["c346870"]
 NOT_APPLICABLE = {}
 
+ENGINE_ASSUME = [
+    "goroutine interleavings inside one polling pass of the scheduler are Go's choice, not enumerated",
+    "the checker-controlled Runner implements the documented Runner contract (Cancel fails what is in flight, waits, later runs fail)",
+    "a condition-false stage with dependencies may be skipped at once (taskctl) or once its dependencies are satisfied; a run must follow one reading throughout",
+    "liveness is observed as 'within 4 s (20 s on the retry)' where a case normally needs a few ms",
+]
+
+
+def engine_parts(cancel=False):
+    parts = [
+        {"name": "exhaustive", "test": "TestExhaustive", "kind": "plain", "n": {Q: 3, T: 4},
+         "shards": {Q: 8, T: 16}, "timeout": {Q: 400, T: 2400}},
+        {"name": "random", "test": "TestRandom", "checks": {Q: 4000, T: 120000}, "shards": {Q: 8, T: 16},
+         "timeout": {Q: 400, T: 2400}, "shrinktime": "25s"},
+    ]
+    if cancel:
+        parts.append({"name": "cancel", "test": "TestCancel", "checks": {Q: 1600, T: 40000}, "shards": {Q: 4, T: 16},
+                      "timeout": {Q: 400, T: 2400}, "shrinktime": "25s"})
+    return parts
+
+
+ENGINE_RULE = ("exhaustive: every labelled DAG on n<=3 stages x every declaration order x every assignment of "
+               "{ok, fail, fail+allow_failure, condition false} x every completion order (thorough: also all 543 DAGs on 4 stages, "
+               "declaration orders and outcome assignments from a PRNG seeded by VERIF_SEED, every completion order up to 24); "
+               "random: rapid DAGs up to 8 stages with nested pipelines (depth<=2), condition-true stages, random declaration "
+               "order, completion order drawn at every quiescent point (single release or a subset at once). ")
+
 PROPS = {
+    "C01": {
+        "pkg": "c01", "bin": False,
+        "technique": "model-based stateful PBT: real Scheduler + checker-controlled Runner vs reference scheduler model; "
+                     "exhaustive DAGs<=4 x completion orders + rapid state machine",
+        "level_text": "Every entry into Runner.Run is compared with the set of stages the reference model allows to be in flight, at "
+                      "every quiescent point of every explored completion order; dependencies are held blocked through a settle "
+                      "window so a premature start has the chance to happen. Complete over DAGs<=3 (all orders/outcomes/schedules), "
+                      "all 543 DAGs on 4 stages, sampled to 8 stages + nesting.",
+        "level_note": "Trusts the 100-line reference model (model.go) and the quiescence detection; " + ENGINE_ASSUME[0],
+        "rule": ENGINE_RULE + "Non-trivial for C01 = at least one dependency edge and at least 2 runs in flight at some point; "
+                "distinct = canonical JSON of (pipeline, declaration order, outcomes, choices).",
+        "assumptions": ENGINE_ASSUME, "parts": engine_parts(),
+    },
+    "C02": {
+        "pkg": "c01", "bin": False,
+        "technique": "model-based stateful PBT + metamorphic (two independently drawn completion orders of the same pipeline must "
+                     "give the same statuses / error / ran-set)",
+        "level_text": "Set of executed tasks, final status of every stage and error-nil-ness of Schedule are compared with the "
+                      "reference model for every explored schedule; every random pipeline is executed under two independent "
+                      "completion orders, the exhaustive part under all of them.",
+        "level_note": "Trusts the reference model; which error Schedule returns is not asserted (the statement does not promise it).",
+        "rule": ENGINE_RULE + "Non-trivial for C02 = a non-allowed failure that has a dependant while another stage is in flight, or a "
+                "stage with one failed and one still-running dependency; distinct = canonical JSON of the case.",
+        "assumptions": ENGINE_ASSUME, "parts": engine_parts(),
+    },
+    "C03": {
+        "pkg": "c01", "bin": False,
+        "technique": "model-based stateful PBT with injected cancellation (caller Cancel at a drawn quiescent point, unevaluable stage "
+                     "condition at a drawn node); bounded-liveness oracle with one enlarged retry",
+        "level_text": "Schedule must return within a bound >=1000x the normal case time after the last release; afterwards no stage is "
+                      "waiting/running, every stage of the model's ran-set was executed exactly once, none twice. Cancelled runs "
+                      "(controlled Runner here, real TaskRunner in part 'realrunner') must return and never run a task twice.",
+        "level_note": "Termination is observed as 'returned within the bound'; statuses after a cancel are not asserted.",
+        "rule": ENGINE_RULE + "cancel: rapid pipelines up to 7 stages where the chooser may call Scheduler.Cancel at any quiescent point "
+                "(p=1/6 per point) or a drawn stage has an unevaluable condition. Non-trivial for C03 = normal run with >=2 stages "
+                "and >=1 edge, or a cancelled run (distinct by injection kind, runs in flight at the cancel and case).",
+        "assumptions": ENGINE_ASSUME, "parts": engine_parts(cancel=True),
+    },
+    "C04": {
+        "pkg": "c01", "bin": False,
+        "technique": "model-based stateful PBT: the property never releases a run until the set blocked inside the controlled Runner "
+                     "equals the model's eligible set",
+        "level_text": "At every quiescent point of every explored schedule the set of tasks simultaneously inside Runner.Run must equal "
+                      "the model's eligible set; since nothing is released before that holds, a scheduler that serialises "
+                      "independent stages can never get there and hits the liveness bound.",
+        "level_note": "Bounded liveness (4 s, retried once with 20 s); trusts the reference model's eligibility rule.",
+        "rule": ENGINE_RULE + "Non-trivial for C04 = the expected in-flight set had size >= 2 at some point; distinct = canonical JSON.",
+        "assumptions": ENGINE_ASSUME, "parts": engine_parts(),
+    },
     "C05": {
         "pkg": "c05", "bin": True,
         "technique": "exhaustive enumeration of all digraphs on <=4 stages x declaration orders + rapid random digraphs, "
